@@ -60,6 +60,9 @@ def cases(w: K.Wire) -> list[tuple]:
     out.append(("triple-outside-graph", "triple after graph end in a GRAPHS stream", 3, {}, w.statement_rows(3, 1, "g1"), [trip(**bn)], "GraphsAdapter.triple"))
     out.append(("missing-options", "stream whose first row is a triple", 1, None, [], [trip(**bn)], "pyjelly.parse.decode.options_from_frame"))
     out.append(("unsupported-stream-type", "physical type UNSPECIFIED", 0, {}, [], [trip(**bn)], "parse_jelly_flat"))
+    out.append(("unsupported-version", "options row declaring protocol version 3", 1, {"version": 3}, [], [trip(**bn)], "pyjelly.parse.decode.Decoder.validate_stream_options"))
+    out.append(("unsupported-version", "options row declaring protocol version 9", 2, {"version": 9}, [], [w.msg("RdfStreamRow", quad=w.msg("RdfQuad", g_bnode=sstr(Atom("g")), **bn))], "pyjelly.parse.decode.Decoder.validate_stream_options"))
+    out.append(("empty-row", "a row with no content (unknown/unset row kind)", 1, {}, [trip(**bn)], [w.msg("RdfStreamRow"), trip(**bn)], "pyjelly.parse.decode.Decoder.iter_rows"))
     return out
 
 
